@@ -361,11 +361,16 @@ var c14LoadTable = []struct{ name, doc string }{
 	{"extend-schema-mutation+later-duplicate-field", "type Mut { set: Int }\nextend schema { mutation: Mut }\nextend type Query { a: Int }\n"},
 	{"default-mutation-type+extend-schema-directive+undefined-reference", "type Mutation { set: Int }\ndirective @x on SCHEMA\nextend schema @x\ntype Bad { x: Zork }\n"},
 	{"default-subscription-type+extend-schema-subscription-twice", "type Subscription { on: Int }\ntype Subby { s: Int }\nextend schema { subscription: Subby }\n"},
+	{"new-implementer-of-an-interface+undefined-reference", "type Ghost implements Node { id: ID }\ntype Bad { x: Zork }\n"},
+	{"new-implementer-of-an-interface+empty-object", "type Ghost implements Node { id: ID }\ntype Empty { }\n"},
+	{"new-implementer-of-an-interface+interface-field-missing", "type Ghost implements Node { id: ID }\ntype Half implements Node { x: Int }\n"},
+	{"extend-type-implements+empty-object", "extend type Song implements Node\ntype Empty { }\n"},
+	{"new-union-of-existing-types+undefined-reference", "union Either = Alt | Song\ntype Bad { x: Zork }\n"},
 	{"extend-schema+empty-object", "type Mutation { set: Int }\ntype Subby { s: Int }\nextend schema { subscription: Subby }\ntype Empty { }\n"},
 }
 
 func c14Loads(o *Out) {
-	const first = "type Query { a: Int alt: Alt }\ntype Alt { b: Int }\n"
+	const first = "interface Node { id: ID }\ntype Query { a: Int alt: Alt node: Node }\ntype Alt implements Node { id: ID b: Int }\ntype Song { id: ID t: String }\n"
 	const follow = "type Mutation { set: Int }\ntype Later { z: Alt }\n"
 	for _, e := range c14LoadTable {
 		root, control := newLoadRoot(), newLoadRoot()
